@@ -207,6 +207,25 @@ func glueRun(a []string, probe bool) string {
 	return strings.Join(out, " ")
 }
 
+// glueReplyClass names a reply of Friendly.handleCommand
+func glueReplyClass(reply string, level int) string {
+	switch {
+	case reply == "":
+		return "nothing"
+	case strings.HasPrefix(reply, "OK! I'll play as best"):
+		return "level:max"
+	case reply == "I only know about levels up to "+strconv.Itoa(fpa.VerifNumLevels()+1):
+		return "level:unknown"
+	case reply == "OK! I'll play at level "+strconv.Itoa(level)+" for future games.":
+		return "level:future"
+	case reply == "OK! I'll play at level "+strconv.Itoa(level)+", starting right now.":
+		return "level:now"
+	case reply == "[FriendlyBot@level "+strconv.Itoa(level)+"]: http://bit.ly/25h33rC":
+		return "help"
+	}
+	return "other<" + strings.ReplaceAll(reply, " ", "_") + ">"
+}
+
 func init() {
 	opTable["glue"] = func(s *Session, a []string) string { return glueRun(a, false) }
 	opTable["glueprobe"] = func(s *Session, a []string) string { return glueRun(a, true) }
@@ -235,6 +254,27 @@ func init() {
 				cls = "now"
 			}
 			return cls + " " + strconv.Itoa(nl) + " " + strconv.Itoa(b2i(rebuilt))
+		case "tell":
+			// gluefn tell <F|T> <level> <inGame> <fromOpp> <hex msg>
+			cmds, nl, ns := fpa.VerifHandleTell(a[1], atoi(a[2]), a[3] == "1", a[4] == "1", unhex(a[5]))
+			who := "someone"
+			if a[4] == "1" {
+				who = fpa.VerifGlueOpponent
+			}
+			cls := "nothing"
+			switch {
+			case len(cmds) > 1:
+				cls = "many<" + strings.ReplaceAll(strings.Join(cmds, "|"), " ", "_") + ">"
+			case len(cmds) == 1 && strings.HasPrefix(cmds[0], "Tell "+who+" "):
+				cls = glueReplyClass(cmds[0][len("Tell "+who+" "):], nl)
+			case len(cmds) == 1 && cmds[0] == "Seek "+strconv.Itoa(ns)+" 1200 0":
+				cls = "seek:" + strconv.Itoa(ns)
+			case len(cmds) == 1:
+				cls = "other<" + strings.ReplaceAll(cmds[0], " ", "_") + ">"
+			case ns != 0:
+				cls = "sizeset:" + strconv.Itoa(ns)
+			}
+			return cls + " " + strconv.Itoa(nl)
 		case "cfg":
 			c := fpa.VerifFriendlyConfig(a[1], atoi(a[2]))
 			return strconv.Itoa(c.Size) + " " + strconv.Itoa(c.Pieces) + " " + strconv.Itoa(c.Capstones) + " " + strconv.Itoa(b2i(c.BlackWinsTies))
